@@ -132,7 +132,7 @@ Mutating(sh) == sh.class \in WriteClasses \/ (sh.class \in AdminClasses /\ sh.me
 \* "...traverse", "...get-links", ...); the OTHER index is called <own>/<x> (sent as %2F);
 \* needs percent-encoding; lies under the reserved key prefix _sys_auth::
 NamesOf(sh) ==
-    IF sh.class \in KvClasses THEN {"benign", "readword", "slash", "encoded", "reserved"}
+    IF sh.class \in KvClasses THEN {"benign", "readword", "slash", "encoded", "reserved", "reservedenc"}
     ELSE IF sh.tail = "name" \/ sh.src = "path" THEN {"benign", "readword", "slash", "encoded"}
     ELSE IF sh.class \in IndexScoped THEN {"benign", "readword", "slash"}
     ELSE {"benign"}
@@ -156,7 +156,9 @@ BodiesOf(sh) ==
     ELSE IF sh.src \in {"none", "query"} THEN {"plain", "decoy"}
     ELSE {"plain"}
 
-AllNames  == {"benign", "readword", "slash", "encoded", "reserved"}
+\* "reservedenc": the reserved key in a percent-encoded spelling (%5Fsys%5Fauth%3A%3A...): the mux hands the handler
+\* the DECODED key, so the guard has to look at the decoded path as well
+AllNames  == {"benign", "readword", "slash", "encoded", "reserved", "reservedenc"}
 AllBodies == {"plain", "decoy", "dup"} \cup CaseBodies
 Applicable(c) == /\ c.target \in TargetsOf(c.shape)
                  /\ c.name \in NamesOf(c.shape)
@@ -168,7 +170,7 @@ Cases == { c \in [tok : Tokens, shape : Shapes, target : {"own", "other", "-"}, 
 (***************************************************************************)
 (* POLICY = the property                                                   *)
 (***************************************************************************)
-Reserved(c) == c.shape.class \in KvClasses /\ c.name = "reserved"
+Reserved(c) == c.shape.class \in KvClasses /\ c.name \in {"reserved", "reservedenc"}
 \* reading or writing the signing key / the revocation markers IS auth administration
 EffMin(c)   == IF Reserved(c) THEN "admin" ELSE MinRole(c.shape.class)
 
